@@ -55,10 +55,12 @@ PARTIAL = [
     "orthogonality-centre shortcuts (scalar_product, norm, single-site and one-site tensor product on the centre): "
     "centre_shortcut_value / centre_operator_value prove them equal to the full contraction GIVEN the index-form "
     "canonicity Centre.Canon (the isometry contract, established by C03 canonical_form_centre_norm); the link from the "
-    "C04 tree labels (gKet/gBra) to the Centre/Kids structure of Ptn/Common/EinsumIso.lean is proved for the centre = "
-    "ROOT of the tree (scalar_product_centre_shortcut_root_partial: every expression the loop's output is built from "
-    "evaluates to the centre-only contraction, given the per-edge index-form isometry IsoKids); for a centre elsewhere "
-    "(re-rooting of Tree) and for the operator sandwich the theorems still quantify over every program with the norm / "
+    "C04 tree labels (gKet/gBra) to the Centre/Kids structure of Ptn/Common/EinsumIso.lean is proved for scalar_product "
+    "and EVERY centre (scalar_product_centre_shortcut: the loop runs on the tree as rooted, the centre is the root of any "
+    "re-rooting `Rerooted`, reroot_exists: every node has one; every expression the loop's output is built from "
+    "evaluates to the centre-only contraction, given the per-edge index-form isometry IsoKids toward the centre and "
+    "equal dimensions at both ends of every bond); for the operator sandwich (single-site shortcut, expectation_value "
+    "loop) the theorem centre_operator_value still quantifies over every program with the "
     "sandwich record; stream `centre` compares the library's shortcut and "
     "full values with the Lean model's evaluation on exactly canonical integer states; the shortcut's leg bookkeeping "
     "(centreScalarProduct / centreSingleSite) is modelled but not served by the driver",
